@@ -87,6 +87,9 @@ class CircuitOpSerializer(OpSerializer):
         if not isinstance(op, cirq.CircuitOperation):
             raise ValueError(f'Serializer expected CircuitOperation but got {type(op)}.')
 
+        if op.parent_path:
+            raise ValueError(f'Cannot serialize CircuitOperation with parent_path {op.parent_path}')
+
         msg = msg or v2.program_pb2.CircuitOperation()
         try:
             msg.circuit_constant_index = raw_constants[op.circuit]
